@@ -179,17 +179,38 @@ def classify_all_ways(s, doc, variant, cfg, tmpdir, in_claim=True):
                  ('bytes-utf16be-nl', lambda: MosFile.from_string(u16be)),
                  ('file-utf16be-nl', lambda: MosFile.from_file(p16be))]
     from .. import events as EV
+    import copy
+    from xml.etree import ElementTree as ET
+    from ..spec import classify_doc
+    outcomes = {}
     for filt in ('default', 'error'):
         for wname, fn in ways:
+            own = None
             with W.catch_warnings():
                 W.simplefilter(filt)
                 EV.STATE['quiet'] = EV.STATE.get('quiet', 0) + 1
                 try:
-                    got = type(fn()).__name__
+                    o = fn()
+                    got = type(o).__name__
+                    # the class is that of the element the object acts on (its base_tag): classify that element alone
+                    try:
+                        bt = o.base_tag
+                        if bt is not None and got != 'RunningOrder':
+                            alone = ET.Element('mos')
+                            alone.append(copy.deepcopy(bt))
+                            own = classify_doc(alone)
+                    except Exception:
+                        own = None
                 except Exception as e:
                     got = type(e).__name__
                 finally:
                     EV.STATE['quiet'] -= 1
+            outcomes[(wname, filt)] = got
+            if own is not None and own != got:
+                s.custom_violation('class-is-not-the-class-of-the-element-the-object-acts-on',
+                                   {'class': got, 'class_of_its_base_tag': own, 'source': wname, 'variant': variant},
+                                   {'type': 'classify', 'doc': doc, 'source': wname, 'filter': filt},
+                                   msg_kind=got, status='%s/%s' % (wname, filt))
             s.evaluations += 1
             s.note_sig((cfg, wname, filt, want, variant))
             s.hist['classified:' + got] += 1
@@ -199,8 +220,56 @@ def classify_all_ways(s, doc, variant, cfg, tmpdir, in_claim=True):
                                     'variant': variant},
                                    {'type': 'classify', 'doc': doc, 'source': wname, 'filter': filt},
                                    msg_kind=want, status='%s/%s' % (wname, filt))
+    # whatever the class is - also for documents outside the table's claim - it is ONE class: the same from every
+    # source and under every filter, and the same again after other documents have been classified in between
+    if len(set(outcomes.values())) > 1:
+        s.custom_violation('classification-differs-between-sources',
+                           {'outcomes': {'%s/%s' % k: v for k, v in outcomes.items()}, 'variant': variant},
+                           {'type': 'classify', 'doc': doc}, msg_kind=want, status='sources')
+    EV.STATE['quiet'] = EV.STATE.get('quiet', 0) + 1
+    try:
+        with W.catch_warnings():
+            W.simplefilter('ignore')
+            history = list(HISTORY_DOCS)
+            if root is not None:
+                # ... among them plain documents of every OTHER message tag this document holds
+                for t_ in sorted({c.tag for c in root if c.tag in MESSAGE_TAGS}):
+                    history.append(plain_doc_of(t_))
+            for other in history:
+                try:
+                    MosFile.from_string(other)
+                except Exception:
+                    pass
+            try:
+                again = type(MosFile.from_string(doc)).__name__
+            except Exception as e:
+                again = type(e).__name__
+    finally:
+        EV.STATE['quiet'] -= 1
+    s.hist['history_independence_checks'] += 1
+    if again != outcomes.get(('str', 'default')):
+        s.custom_violation('classification-depends-on-what-was-classified-before',
+                           {'first': outcomes.get(('str', 'default')), 'after_other_documents': again, 'variant': variant},
+                           {'type': 'classify', 'doc': doc}, msg_kind=want, status='history')
     if len(s.samples) < 3 and s.evaluations % 50 == 0:
         s.samples.append({'doc': doc[:300], 'expected': want, 'variant': variant, 'config': cfg})
+
+
+_PLAIN = {}
+
+
+def plain_doc_of(tag):
+    if tag not in _PLAIN:
+        _PLAIN[tag] = next(d for _, d in tag_docs(random.Random('plain/' + tag), tag, 1))
+    return _PLAIN[tag]
+
+
+HISTORY_DOCS = [
+    B.msg_doc('roStorySend', 901, story_ref='A', body=[B.E('p', 'x')], fields=['BODY']),
+    B.msg_doc('roDelete', 902),
+    B.msg_doc('EAItemDelete', 903, story_ref='A', ids=['i']),
+    B.msg_doc('roStoryAppend', 904, carried=[]),
+]
 
 
 def run(s):
@@ -251,6 +320,23 @@ def run(s):
                 variant = 'garbled'
             if s.mine(idx):
                 classify_all_ways(s, doc, variant, cfg, tmpdir)
+        # documents holding TWO message elements (different tags, or the same tag twice with different content):
+        # which element decides is not claimed - but the answer is one class, the same from every source and
+        # after any history, and it is the class of the element the returned object acts on
+        n_two = 60 if q else 6000
+        for k in range(n_two):
+            idx += 1
+            if not s.mine(idx):
+                continue
+            ra, rb = ET.fromstring(rng.choice(base_docs)), ET.fromstring(rng.choice(base_docs))
+            if rng.random() < 0.4:
+                op1, op2 = rng.sample(OPS, 2)
+                ra = ET.fromstring(ea_doc(op1, rng.choice(TSHAPES), rng.choice(SSHAPES)))
+                rb = ET.fromstring(ea_doc(op2, rng.choice(TSHAPES), rng.choice(SSHAPES)))
+            extra = [c for c in rb if c.tag in MESSAGE_TAGS]
+            for c in extra:
+                ra.insert(rng.randint(0, len(ra)), c)
+            classify_all_ways(s, ET.tostring(ra, encoding='unicode'), 'two-message-elements', cfg, tmpdir, in_claim=False)
         # fixtures of the repository as seeds
         fixdir = os.path.join(os.environ.get('VERIF_REPO', '/repo'), 'tests', 'mock_mos')
         if os.path.isdir(fixdir):
